@@ -1,5 +1,103 @@
-/- Line-protocol driver for the C03 model (stub until the model exists). -/
-import ForML.Model.Sexp
-open ForML
+/- Line-protocol driver for the C03 model (ForML.Model.Compose / ForML.Model.Denote).
 
-def main : IO Unit := driverLoop (fun _ => .atom "no-model")
+  (run <expr>)     expand from the empty graph, evaluate the three tails and the trained states
+  (denote <expr>)  ⟦expr⟧ on the inputs (input 0) (input 1) (input 2)
+
+  actor ::= (tag stateful)        slot ::= none | actor
+  expr  ::= (wrap slot slot slot) | (mapreduce (actor ...) tag) | (debug actor actor)
+          | (stack (expr ...) nsplits splitter appender stacker reducer) | (seq expr expr)
+-/
+import ForML.Model.Sexp
+import ForML.Model.Compose
+import ForML.Model.Denote
+open ForML ForML.Compose
+
+def bool? : Sexp → Option Bool
+  | .atom "true" => some true
+  | .atom "false" => some false
+  | _ => none
+
+def actor? : Sexp → Option Actor
+  | .list [t, s] => do pure ⟨← t.nat?, ← bool? s⟩
+  | _ => none
+
+def slot? : Sexp → Option (Option Actor)
+  | .atom "none" => some none
+  | x => (actor? x).map some
+
+partial def expr? : Sexp → Option Expr
+  | .list [.atom "wrap", l, a, t] => do pure (.wrap (← slot? l) (← slot? a) (← slot? t))
+  | .list [.atom "mapreduce", .list ms, r] => do pure (.mapreduce (← ms.mapM actor?) (← r.nat?))
+  | .list [.atom "debug", a, t] => do pure (.debug (← actor? a) (← actor? t))
+  | .list [.atom "stack", .list bs, n, s, a, k, r] => do
+    pure (.stack (← bs.mapM expr?) (← n.nat?) (← s.nat?) (← a.nat?) (← k.nat?) (← r.nat?))
+  | .list [.atom "seq", l, r] => do pure (.seq (← expr? l) (← expr? r))
+  | _ => none
+
+partial def valSexp : Val → Sexp
+  | .none => .atom "none"
+  | .input n => .list [.atom "input", Sexp.ofNat n]
+  | .hole u => .list [.atom "hole", Sexp.ofNat u]
+  | .apply t st args => .list [.atom "apply", Sexp.ofNat t, valSexp st, .list (args.map valSexp)]
+  | .state t p x y => .list [.atom "state", Sexp.ofNat t, valSexp p, valSexp x, valSexp y]
+  | .proj i v => .list [.atom "proj", Sexp.ofNat i, valSexp v]
+
+def optVal : Option Val → Sexp
+  | some v => valSexp v
+  | none => .atom "stuck"
+
+def statesSexp (ss : List (Nat × Val)) : Sexp :=
+  .list (ss.map (fun (t, v) => .list [Sexp.ofNat t, valSexp v]))
+
+def errSexp : Err → Sexp
+  | .doubleSubscription => .atom "doubleSubscription"
+  | .statelessTrain => .atom "statelessTrain"
+  | .forkTrainCollision => .atom "forkTrainCollision"
+  | .noNode => .atom "noNode"
+
+/-- group structure of the expanded graph: for every group the number of member workers and whether one is trained -/
+def groupStats (g : Graph) : Sexp :=
+  let gids := (g.nodes.filterMap (fun n => match n.kind with | .worker gid .. => some gid | .future => none)).eraseDups
+  let workers := g.nodes.filter (fun n => match n.kind with | .worker .. => true | .future => false)
+  .list [.list [.atom "nodes", Sexp.ofNat g.nodes.length], .list [.atom "workers", Sexp.ofNat workers.length],
+    .list [.atom "groups", Sexp.ofNat gids.length], .list [.atom "trained", Sexp.ofNat g.trains.length]]
+
+/-- (tag, members, trained members) of every group with at least one connected member (the unconnected prototype a
+`setdefault` default leaves behind is a member of its group, as in `Worker.group`) -/
+def groupSig (g : Graph) : Sexp :=
+  let connected (u : Nat) : Bool :=
+    g.edges.any (fun e => e.sub == u || e.pub.node == u) || g.trains.any (fun t => t.node == u)
+  let workers := g.nodes.filterMap (fun n =>
+    match n.kind with
+    | .worker gid a _ _ => some (n.uid, gid, a.tag)
+    | .future => none)
+  let gids := ((workers.filter (fun w => connected w.1)).map (·.2.1)).eraseDups
+  .list (gids.map (fun gid =>
+    let ms := workers.filter (fun w => w.2.1 == gid)
+    let tag := match ms with
+      | w :: _ => w.2.2
+      | [] => 0
+    .list [Sexp.ofNat tag, Sexp.ofNat ms.length, Sexp.ofNat (g.trains.filter (fun t => t.gid == gid)).length]))
+
+def stepC03 : Sexp → Sexp
+  | .list [.atom "run", x] =>
+    match expr? x with
+    | none => .atom "bad-op"
+    | some e =>
+      match run e with
+      | .error err => .list [.atom "error", errSexp err]
+      | .ok o =>
+        .list [.atom "ok", .list [.atom "train", optVal o.train], .list [.atom "apply", optVal o.apply],
+          .list [.atom "label", optVal o.label],
+          .list [.atom "states", match o.states with | some ss => statesSexp ss | none => .atom "stuck"],
+          .list [.atom "stats", groupStats o.graph], .list [.atom "groupsig", groupSig o.graph]]
+  | .list [.atom "denote", x] =>
+    match expr? x with
+    | none => .atom "bad-op"
+    | some e =>
+      let d := denote e (.input 0) (.input 1) (.input 2)
+      .list [.atom "ok", .list [.atom "train", valSexp d.train], .list [.atom "apply", valSexp d.apply],
+        .list [.atom "label", valSexp d.label], .list [.atom "states", statesSexp d.states]]
+  | _ => .atom "bad-op"
+
+def main : IO Unit := driverLoop stepC03
